@@ -12,5 +12,6 @@ func TestVerifSim(t *testing.T) {
 		"C02": verifEngineA,
 		"C03": verifEngineA,
 		"C04": verifEngineA,
+		"C05": verifEngineC05,
 	})
 }
